@@ -19,6 +19,7 @@ From NextestModel Require gen.GenDecisions.
 From NextestModel Require Model.Result Model.Dispatcher Model.Junit Model.UnitTimers Model.Filter Model.FilterFull.
 From NextestModel Require Model.Backoff Model.CliRun Proofs.CliRun.
 From NextestModel Require Model.AttemptDecision Proofs.AttemptDecision.
+From NextestModel Require Model.Overrides Model.Scripts.
 Import ListNotations.
 Open Scope N_scope.
 
@@ -34,6 +35,8 @@ Module MC := NextestModel.Model.CliRun.
 Module PC := NextestModel.Proofs.CliRun.
 Module MA := NextestModel.Model.AttemptDecision.
 Module PA := NextestModel.Proofs.AttemptDecision.
+Module MO := NextestModel.Model.Overrides.
+Module MSc := NextestModel.Model.Scripts.
 
 (* boolean comparisons in hypotheses -> propositions lia understands *)
 Ltac b2p :=
@@ -661,4 +664,48 @@ Proof.
   intros o cs b n own Hb Hn. revert Hb. destruct o as [nr tt rt ff nff mf nt]. cbn in Hn. subst rt.
   bridge_norm. destruct nr; [discriminate|]. intro Hb. injection Hb as <-.
   repeat (bridge_case; cbv beta iota); split; reflexivity.
+Qed.
+
+(* ---------------------------------------------------------------- platform guards (Model/Overrides.v, Model/Scripts.v) *)
+(* == block conv_platform == *)
+Definition is_host (p : G.BuildPlatform) : bool :=
+  match p with G.BuildPlatform_Host => true | G.BuildPlatform_Target => false end.
+Definition platform_of (host : bool) : G.BuildPlatform :=
+  if host then G.BuildPlatform_Host else G.BuildPlatform_Target.
+Definition state_to_model (s : G.FinalConfig) : MO.ostate :=
+  MO.Build_ostate (G.FinalConfig_host_eval s) (G.FinalConfig_host_test_eval s) (G.FinalConfig_target_eval s).
+
+(* == block override_platform_guard (needs conv_platform) == *)
+(* the `continue`s at the head of the loop over the overrides in TestSettings::new that look at the platform: an
+   override is considered for a test only if host_eval holds AND the evaluation for the test's own build platform
+   (host_test_eval for host binaries, target_eval for target binaries) holds *)
+Lemma gen_override_platform_guard_is_model :
+  forall st p, G.override_platform_guard st p = MO.platform_ok (state_to_model st) (is_host p).
+Proof. bridge. Qed.
+(* ... which is the platform part of the model's [skips] (the four `continue`s) for every override and test *)
+Lemma gen_override_skips_is_model :
+  forall e t st o,
+    MO.skips e t (state_to_model st, o) =
+    negb (G.override_platform_guard st (platform_of (MO.t_host t)))
+    || match MO.filter_of o with Some f => negb (MO.e_filter e f (MO.t_id t)) | None => false end.
+Proof.
+  intros e t st o. unfold MO.skips. destruct st as [h ht tg], t as [id host].
+  cbn [MO.t_host MO.t_id state_to_model MO.st_host MO.st_host_test MO.st_target
+       G.FinalConfig_host_eval G.FinalConfig_host_test_eval G.FinalConfig_target_eval].
+  destruct (match MO.filter_of o with Some f => negb (MO.e_filter e f id) | None => false end);
+    destruct h, ht, tg, host; reflexivity.
+Qed.
+
+(* == block script_platform_guard (needs conv_platform) == *)
+(* CompiledProfileScripts::is_enabled: the three `return false`s before the filterset is looked at *)
+Lemma gen_script_platform_guard_is_model :
+  forall st p flt setup id,
+    MSc.rule_matches
+      (MSc.mkrule (G.FinalConfig_host_eval st) (G.FinalConfig_host_test_eval st) (G.FinalConfig_target_eval st) flt setup)
+      (MSc.mkq id (is_host p)) =
+    G.script_platform_guard st p && match flt with Some f => f (MSc.mkq id (is_host p)) | None => true end.
+Proof.
+  intros st p flt setup id. destruct flt as [f|]; [destruct (f (MSc.mkq id (is_host p))) eqn:E|];
+    unfold MSc.rule_matches; cbn [MSc.r_filter MSc.r_host_eval MSc.r_host_test_eval MSc.r_target_eval MSc.q_host];
+    try rewrite E; bridge.
 Qed.
